@@ -17,8 +17,11 @@ coins `d1:a1,d2:a2` (`-` = empty);  a pool-math result is a number / coin list o
   swapout <u> <maxIn> <dout> <amtOut> <pool:din:est:math>…
   send <u> <acct> <denom> <amt>
   bal <acct> <denom> | supply <denom> | pool <id> | dump
+  exportimport                                    -> ok   (gamm ExportGenesis -> InitGenesis, pool-record part)
+  totalliq-imported <denom>                       -> Σ over the pool records = GetTotalLiquidity of a node imported now
 -/
 import OsmoVerif.Model.GammKeeper
+import OsmoVerif.Model.GammGenesis
 namespace OsmoVerif.Gamm
 open OsmoVerif.Ledger
 
@@ -217,6 +220,15 @@ def stepGamm (st : State) (op : String) (args : List String) : State × String :
       | none => (st, "none")
     | none => bad
   | "dump", [] => (st, dump st)
+  -- C19: x/gamm ExportGenesis -> gamm store wiped -> InitGenesis (Model/GammGenesis) as far as this engine's state goes (pool records:
+  -- reproduced entry by entry when the ids are distinct; bank / poolmanager state is not gamm's).  The recomputed total-liquidity store
+  -- lives in the layered state of `DrvGammG` (`gammg exportimport`, `gammg totalliq`).
+  | "exportimport", [] => ((gammExportImport { core := st }).core, "ok")
+  -- what a node imported NOW would report as total liquidity (Σ over the pool records) vs. nothing else: a pure query
+  | "totalliq-imported", [d] =>
+    match parseDenom d with
+    | some d => (st, s!"{(gammExportImport { core := st }).liquidity d}")
+    | none => bad
   | _, _ => bad
 
 end OsmoVerif.Gamm
